@@ -2,6 +2,7 @@ package main
 
 import (
 	"bufio"
+	"bytes"
 	"context"
 	"fmt"
 	"io"
@@ -64,12 +65,18 @@ func (p *silentPeer) run() {
 	rd := bufio.NewReader(p.conn)
 	n := 0
 	for {
-		_, err := rd.ReadBytes(0)
+		f, err := rd.ReadBytes(0)
 		if err != nil {
 			return
 		}
 		n++
-		if n > p.ignore {
+		// the call that is to be given up (`…silent.First`) is never answered, the follow-up (`…silent.Second`) always:
+		// under load the context can end before the given-up call has written anything, and then the follow-up is
+		// the first frame this peer sees (counting frames made the oracle depend on that race)
+		if bytes.Contains(f, []byte("silent.First\"")) {
+			continue
+		}
+		if n > p.ignore || bytes.Contains(f, []byte("silent.Second\"")) {
 			p.conn.Write([]byte("{\"parameters\":{}}\x00"))
 		}
 	}
@@ -161,6 +168,18 @@ func timed(mode string, op func(ctx context.Context) error) (string, string) {
 // runCancelX never hangs: a case that does not finish within 20 s is reported as such (the goroutines of
 // the stuck operation are abandoned).
 func runCancelX(c cancelX) string {
+	l := runCancelXOnce(c)
+	if strings.Contains(l, "| slow ") {
+		// the 2 s margin is one-sided and generous, but a machine loaded far beyond its cores can still stall a
+		// process that long (seen once in 1 632 cases with 24 harness processes at once): an operation that ignores
+		// its context is slow every time, so the case is run once more, alone, and that outcome is reported
+		time.Sleep(500 * time.Millisecond)
+		l = runCancelXOnce(c)
+	}
+	return l
+}
+
+func runCancelXOnce(c cancelX) string {
 	done := make(chan string, 1)
 	go func() { done <- runCancelXInner(c) }()
 	select {
